@@ -226,13 +226,13 @@ def run_history(cfg, ops):
             else:
                 s = o["calls"][0]
                 args, kwargs = spell(s)
-                fn = get(s["g"], s["i"])
+                fn = get(s.get("g", 1), s["i"])
                 r = [outcome(lambda: fn(*args, **kwargs))]
         elif op == "pair":
             thunks = []
             for s in o["calls"]:
                 args, kwargs = spell(s)
-                thunks.append((get(s["g"], s["i"]), args, kwargs))
+                thunks.append((get(s.get("g", 1), s["i"]), args, kwargs))
             r = [list(x) for x in together(thunks)]
         elif op == "drop":
             dead_id = id(objs[2])
